@@ -532,8 +532,7 @@ def get(name, tier, seed):
         WX = {"envs": ["A", "B", "C", "D"], "custom": {}, "handles": {"h1": ["A", "B"], "h2": ["C", "D"]},
               "init": {"A.f": 1, "C.p": "V"}, "contraction": True, "D": 3}
         wide = union(probes_measure(seed, 2), probes_structural(seed, 2), probes_kraus(seed)) if q else \
-            union(probes_measure(seed, 2), probes_structural(seed, 2), probes_kraus(seed), probes_composite_ops(seed),
-                  probes_povm(seed, ("dil3",), ("dil3",)), probes_resize(seed))
+            union(probes_measure(seed, 2), probes_structural(seed, 2), probes_kraus(seed), probes_resize(seed))
 
         def is_w3(m):
             return len(m.envs) == 2 and "Q" in m.ref.kinds
@@ -549,7 +548,7 @@ def get(name, tier, seed):
         WH = {"envs": ["A", "B", "C"], "custom": {"Q": 3}, "handles": {"h1": ["A"], "h2": ["h1", "B"]},
               "init": {"A.f": 1, "B.p": "R"}, "contraction": True, "D": 3, "tags": {"chain": True}}
         return {**base, "prop": "C13", "worlds": [("WM", WM), ("WX", WX), ("WC/chain", WC), ("WH/merged-handle", WH, 2 if q else 3)] + [(n, w_, 1 if q else 2) for n, w_ in SEEDS_W3[:(1 if q else 2)]]
-                + rich_seeds(0 if q else 2), "core": core13b, "probes": probes13,
+                + rich_seeds(0 if q else 1), "core": core13b, "probes": probes13,
                 "depth": 3 if q else 4, "extra_judges": []}
     if name == "C11":
         etas = [PI / 4, 0.3, -1.1, PI / 2]
